@@ -383,11 +383,70 @@ def check_writeline(ctx):
     m = ctx.src.mod(rp)
     fn = m.func('writeline')
     where = 'src/PseudoNetCDF/%s writeline' % rp
-    t = ' ; '.join(norm(s2) for s2 in iter_stmts(fn.body))
-    conds = [("rlen = struct.calcsize(fmt)" in t, 'the length word is struct.calcsize of the payload format'),
-             ("rfmt = 'i' + fmt + 'i'" in t, "the packed format is 'i' + fmt + 'i'"),
-             ("d.insert(0, rlen)" in t and "d.append(rlen)" in t, 'the same length word is placed before and after the payload'),
-             ("struct.pack(rfmt, *d)" in t, 'packed with that format')]
+    # path-wise with temporaries substituted (paths.py): on every returning path the value is struct.pack(F, *D) with
+    # F = [byte order] 'i' + fmt + 'i' and D = the payload bracketed by struct.calcsize(fmt) - built by concatenation or by
+    # insert(0, n) / append(n) on a copy
+    from .. import paths as _paths
+    params = [a_.arg for a_ in fn.args.args]
+    fmtp = params[1] if len(params) > 1 else 'fmt'
+    LEN = 'struct.calcsize(%s)' % fmtp
+
+    def concat_terms(e):
+        if isinstance(e, ast.BinOp) and isinstance(e.op, ast.Add):
+            return concat_terms(e.left) + concat_terms(e.right)
+        return [e]
+    okf = okd = okp = oklen = True
+    nret = 0
+    for pth in _paths.function_paths(fn):
+        if pth.exit[0] != 'return':
+            continue
+        res = _paths.expand(pth)
+        if not res.feasible:
+            continue
+        ret = [new for st, new in res.stmts if isinstance(st, ast.Return)][-1].value
+        if not (isinstance(ret, ast.Call) and dotted(ret.func) == 'struct.pack' and len(ret.args) == 2 and isinstance(ret.args[1], ast.Starred)):
+            okp = False
+            continue
+        nret += 1
+        # the format
+        terms = concat_terms(ret.args[0])
+        pieces = []
+        for t_ in terms:
+            if isinstance(t_, ast.Constant) and isinstance(t_.value, str):
+                if pieces and pieces[-1][0] == 'c':
+                    pieces[-1] = ('c', pieces[-1][1] + t_.value)
+                else:
+                    pieces.append(('c', t_.value))
+            else:
+                pieces.append(('e', norm(t_)))
+        txt = [x for k_, x in pieces if not (k_ == 'c' and x == '')]
+        import re as _re
+        if not (len(txt) == 3 and _re.match(r'^[<>=!@]?i$', txt[0]) and txt[1] == fmtp and txt[2] == 'i'):
+            okf = False
+        # the payload
+        dv = ret.args[1].value
+        dt = concat_terms(dv)
+        if len(dt) >= 3 and all(isinstance(x, ast.List) and len(x.elts) == 1 for x in (dt[0], dt[-1])):
+            a_, b_ = norm(dt[0].elts[0]), norm(dt[-1].elts[0])
+            if a_ != b_:
+                okd = False
+            if a_ != LEN or b_ != LEN:
+                oklen = False
+        elif isinstance(dv, ast.Name):
+            ins = [c_ for st, new in res.stmts for c_ in ast.walk(new) if isinstance(c_, ast.Call) and isinstance(c_.func, ast.Attribute) and norm(c_.func.value) == dv.id
+                   and c_.func.attr == 'insert' and len(c_.args) == 2 and norm(c_.args[0]) == '0']
+            app = [c_ for st, new in res.stmts for c_ in ast.walk(new) if isinstance(c_, ast.Call) and isinstance(c_.func, ast.Attribute) and norm(c_.func.value) == dv.id
+                   and c_.func.attr == 'append' and len(c_.args) == 1]
+            if len(ins) != 1 or len(app) != 1 or norm(ins[0].args[1]) != norm(app[0].args[0]):
+                okd = False
+            elif norm(ins[0].args[1]) != LEN:
+                oklen = False
+        else:
+            okd = False
+    conds = [(oklen, 'the length word is struct.calcsize of the payload format'),
+             (okf, "the packed format is 'i' + fmt + 'i'"),
+             (okd, 'the same length word is placed before and after the payload'),
+             (okp and nret > 0, 'packed with that format')]
     bad = [why for ok, why in conds if not ok]
     if not bad:
         ctx.ok('R-FRAME', 'FortranFileUtil.writeline', where, 'pack(">" + "i" + fmt + "i", calcsize(fmt), *payload, calcsize(fmt))')
